@@ -8,15 +8,16 @@ import (
 	"go/ast"
 	"go/token"
 	"go/types"
+	"math/big"
 	"sort"
 	"strings"
 )
 
 type FuncResult struct {
-	Key   string
-	Obls  []*Obligation
-	Notes []string
-	Err   string // engine error (unsupported construct etc.): the function's obligations are undischarged
+	Key     string
+	Obls    []*Obligation
+	Notes   []string
+	Err     string // engine error (unsupported construct etc.): the function's obligations are undischarged
 	Trusted bool
 }
 
@@ -212,6 +213,21 @@ func (c *FCtx) run(alias [2]string) {
 		if rq.visible(c.prop) {
 			st.assume(penv.evalBool(rq.E))
 		}
+	}
+	// lemmas named by `use` are hypotheses here (each is discharged on its own as a lemma obligation)
+	for _, ln := range con.Uses {
+		var lem *Lemma
+		for _, x := range c.eng.cs.Lemmas {
+			if x.Name == ln {
+				lem = x
+			}
+		}
+		if lem == nil {
+			fail("contract of %s uses unknown lemma %s", fi.Key, ln)
+		}
+		lenv := &CEnv{c: c, names: map[string]Val{}, st: st, old: st, pkg: fi.Pkg}
+		st.assume(lenv.evalBool(lem.E))
+		c.note("uses lemma " + ln + " (discharged separately)")
 	}
 	// cells created while evaluating requires (globals) must be in the snapshot too
 	for k, v := range st.cells {
@@ -589,6 +605,49 @@ func (c *FCtx) frameGoal(ev, fv Val, regs []Region) *Term {
 
 // ---- lemmas ------------------------------------------------------------------------------------------------
 
+// inductionObligations: lemma `forall n, xs :: body` proved by induction on n: base body[n:=0] (for all xs) and
+// step: for an arbitrary n >= 0, (forall xs :: body) ==> (forall xs :: body[n:=n+1]).
+func (e *Engine) inductionObligations(l *Lemma) ([]*Obligation, error) {
+	if l.E.Kind != "forall" {
+		return nil, fmt.Errorf("lemma %s: induction needs a top-level forall", l.Name)
+	}
+	var rest []string
+	found := false
+	for _, v := range l.E.Vars {
+		if v == l.Induct {
+			found = true
+		} else {
+			rest = append(rest, v)
+		}
+	}
+	if !found {
+		return nil, fmt.Errorf("lemma %s: induction variable %s is not bound by the top-level forall", l.Name, l.Induct)
+	}
+	wrap := func(body *CExpr) *CExpr {
+		if len(rest) == 0 {
+			return body
+		}
+		return &CExpr{Kind: "forall", Vars: rest, X: body, Pos: l.Pos}
+	}
+	zero := &CExpr{Kind: "num", Num: big.NewInt(0), Pos: l.Pos}
+	nId := &CExpr{Kind: "ident", Name: l.Induct, Pos: l.Pos}
+	succ := &CExpr{Kind: "bin", Op: "+", X: nId, Y: &CExpr{Kind: "num", Num: big.NewInt(1), Pos: l.Pos}, Pos: l.Pos}
+	base := &Lemma{Name: l.Name + "/base", Tags: l.Tags, E: wrap(substIdent(l.E.X, l.Induct, zero)), Pos: l.Pos, Uses: l.Uses}
+	stepBody := &CExpr{Kind: "bin", Op: "==>", Pos: l.Pos,
+		X: &CExpr{Kind: "bin", Op: "&&", Pos: l.Pos, X: &CExpr{Kind: "bin", Op: ">=", X: nId, Y: zero, Pos: l.Pos}, Y: wrap(l.E.X)},
+		Y: wrap(substIdent(l.E.X, l.Induct, succ))}
+	step := &Lemma{Name: l.Name + "/step", Tags: l.Tags, E: &CExpr{Kind: "forall", Vars: []string{l.Induct}, X: stepBody, Pos: l.Pos}, Pos: l.Pos, Uses: l.Uses}
+	var out []*Obligation
+	for _, x := range []*Lemma{base, step} {
+		o, err := e.lemmaObligation(x)
+		if err != nil {
+			return nil, err
+		}
+		out = append(out, o)
+	}
+	return out, nil
+}
+
 func (e *Engine) lemmaObligation(l *Lemma) (o *Obligation, err error) {
 	defer func() {
 		if r := recover(); r != nil {
@@ -608,6 +667,24 @@ func (e *Engine) lemmaObligation(l *Lemma) (o *Obligation, err error) {
 		if p, ok := e.byName[strings.SplitN(l.Name, ".", 2)[0]]; ok {
 			env.pkg = p
 		}
+	}
+	for _, un := range l.Uses {
+		var dep *Lemma
+		for idx, x := range e.cs.Lemmas {
+			if x.Name == un {
+				dep = x
+				// only lemmas stated earlier may be used: rules out circular justification
+				for idx2, y := range e.cs.Lemmas {
+					if strings.HasPrefix(l.Name, y.Name) && (y.Name == l.Name || strings.HasPrefix(l.Name, y.Name+"/")) && idx2 <= idx {
+						return nil, fmt.Errorf("lemma %s uses %s which is not stated before it", l.Name, un)
+					}
+				}
+			}
+		}
+		if dep == nil {
+			return nil, fmt.Errorf("lemma %s uses unknown lemma %s", l.Name, un)
+		}
+		st.assume(env.evalBool(dep.E))
 	}
 	goal := env.evalBool(l.E)
 	return &Obligation{Name: "lemma/" + l.Name, Func: "lemma", Kind: "lemma", Hyps: append([]*Term(nil), st.pc...), Goal: goal, Pos: l.Pos}, nil
